@@ -1,5 +1,6 @@
 (** C02 / C03 / C11 on graphs with binds for a FAULTED ParallelStabilize pass: the function (WFn) or
-    cutoff function (WCut) of one node [x] returns an error or panics ([fplan x w k]).
+    cutoff function (WCut) of one node [x] returns an error or panics ([fplan x w k]).  (Any number of
+    faults and var writes: C02_C03_binds_parallel_multi_fault.v, which subsumes this file.)
 
     [C02_C03_binds_parallel_faulted_pass]: such a pass that returns [Ok (s', e)] ([e] nothing -- the
     fault was not reached -- or the fault's error) satisfies [PassLogPF x e s s']:
